@@ -358,6 +358,13 @@ func buildVodRoot() (string, error) {
 			}
 		}
 	}
+	// an asset inside the directory of another asset (as the WAVE vectors are organised): a request path under the inner
+	// one also has the outer one as a prefix
+	if curProp == "C07" || curProp == "C04" {
+		if err := copyTree(filepath.Join(bundledRoot(), "testpic_8s"), filepath.Join(root, "nest")); err == nil {
+			_ = copyTree(filepath.Join(bundledRoot(), "testpic_6s"), filepath.Join(root, "nest", "inner"))
+		}
+	}
 	for _, L := range genLayouts {
 		if curProp != "" && strings.Contains(" "+L.notFor+" ", " "+curProp+" ") {
 			continue
